@@ -27,6 +27,7 @@ type job struct {
 	src  []byte
 	ver  px.Ver
 	pipe int // bit set: 1 print, 2 dump, 4 traverse, 8 resolve, 16 format+print
+	nocb bool // parse without an error handler (conf.Config.ErrorHandlerFunc == nil)
 }
 
 func resolvedString(root ast.Vertex, m map[ast.Vertex]string) string {
@@ -45,7 +46,7 @@ func resolvedString(root ast.Vertex, m map[ast.Vertex]string) string {
 // run executes one pipeline and renders everything observable as text.
 func (j job) run() string {
 	var b strings.Builder
-	r := px.Parse(append([]byte{}, j.src...), j.ver, true)
+	r := px.Parse(append([]byte{}, j.src...), j.ver, !j.nocb)
 	if r.Panic != "" {
 		return "PANIC " + r.Panic
 	}
@@ -75,7 +76,7 @@ func (j job) run() string {
 	if j.pipe&8 != 0 {
 		guard("resolve", func() { b.WriteString(resolvedString(r.Root, px.Resolve(r.Root))) })
 	}
-	if j.pipe&16 != 0 && len(r.Errs) == 0 {
+	if j.pipe&16 != 0 && len(r.Errs) == 0 && !j.nocb {
 		guard("format", func() {
 			px.Format(r.Root)
 			b.Write(px.Print(r.Root))
@@ -100,7 +101,7 @@ func drawJob(rt *rapid.T) job {
 		c := progs.Draw(rt, v, progs.Options(v), 1, 3)
 		src = c.G.Render(c.Root, progs.Policy(rt, phpgen.PolicyFull, nil)).Src
 	}
-	return job{src: src, ver: v, pipe: rapid.IntRange(0, 31).Draw(rt, "pipeline")}
+	return job{src: src, ver: v, pipe: rapid.IntRange(0, 31).Draw(rt, "pipeline"), nocb: rapid.IntRange(0, 3).Draw(rt, "handler") == 0}
 }
 
 func TestConcurrentPipelines(t *testing.T) {
